@@ -39,14 +39,12 @@ WEXPORT int64_t w_parse_ds(const uint8_t* text, size_t n, uint32_t want_mask, ui
 // capacity} (libstdc++ layout, a valid "heap" state: pointer != local buffer, capacity == length) points at the caller's
 // exact-size object text[0..n] (text[n] == 0 is the caller's duty), so one byte past the terminator is outside every object.
 // The object is only ever used as `const std::string&` and never destroyed.
-struct WStrRep { const char* p; size_t len; size_t cap; size_t unused; };
-static_assert(sizeof(WStrRep) == sizeof(std::string), "libstdc++ std::string layout");
+struct __attribute__((may_alias)) WStrRep { const char* p; size_t len; size_t cap; size_t unused; };
+static_assert(sizeof(WStrRep) == sizeof(std::string) && alignof(WStrRep) == alignof(std::string), "libstdc++ std::string layout");
 WEXPORT int64_t w_parse_ds_inplace(const uint8_t* text, size_t n, uint32_t want_mask, uint64_t flags, uint8_t* out, size_t cap, uint8_t* mask_out, int64_t* mask_len) {
   try {
-    alignas(std::string) unsigned char raw[sizeof(std::string)];
-    WStrRep rep{reinterpret_cast<const char*>(text), n, n, 0};
-    memcpy(raw, &rep, sizeof(rep));
-    const std::string& s = *reinterpret_cast<const std::string*>(raw);
+    WStrRep rep{reinterpret_cast<const char*>(text), n, n, 0}; // typed stores: the pointer keeps its object identity in CBMC
+    const std::string& s = *reinterpret_cast<const std::string*>(&rep);
     std::string mask;
     std::string r = parse_data_string(s, want_mask ? &mask : nullptr, flags);
     *mask_len = w_copy_out(mask, mask_out, cap);
@@ -108,6 +106,46 @@ WEXPORT int64_t w_format_data(const uint8_t* data, size_t n, size_t c1, size_t c
         sp->pos++;
       }
     }, iovs, 3, start_address, nullptr, 0, flags);
+    if (sink.overflow) return W_CAPACITY;
+    return static_cast<int64_t>(sink.pos);
+  }
+  W_CATCH_ALL
+}
+
+// diff mode with the escape sequences captured out of band: a write_data call whose first byte is ESC (0x1B) is not appended to
+// the text but recorded as an event {position in the text so far, length, first 8 bytes}; every other call is appended as above.
+// The harness decodes the event bytes itself. Purpose: the text positions stay independent of the data (with the sequences inline
+// every position after the first conditional highlight is symbolic for the solver). An ESC that is not the first byte of a call
+// stays in the text, where the harness's dump parser rejects it.
+struct WSinkEv { uint8_t* out; size_t cap; size_t pos; bool overflow; uint64_t* ev_pos; uint8_t* ev_len; uint8_t* ev_bytes; size_t ev_cap; size_t ev_n; };
+WEXPORT int64_t w_format_data_diff_ev(const uint8_t* data, const uint8_t* prev, uint32_t has_prev, size_t n, size_t c1, size_t c2, size_t pc, uint64_t start_address, uint64_t flags, uint8_t* out, size_t cap,
+                                      uint64_t* ev_pos, uint8_t* ev_len, uint8_t* ev_bytes, size_t ev_cap, uint64_t* ev_n) {
+  try {
+    WSinkEv sink{out, cap, 0, false, ev_pos, ev_len, ev_bytes, ev_cap, 0};
+    WSinkEv* sp = &sink;
+    struct iovec iovs[3], piovs[2];
+    iovs[0].iov_base = const_cast<uint8_t*>(data); iovs[0].iov_len = c1;
+    iovs[1].iov_base = const_cast<uint8_t*>(data) + c1; iovs[1].iov_len = c2 - c1;
+    iovs[2].iov_base = const_cast<uint8_t*>(data) + c2; iovs[2].iov_len = n - c2;
+    piovs[0].iov_base = const_cast<uint8_t*>(prev); piovs[0].iov_len = pc;
+    piovs[1].iov_base = const_cast<uint8_t*>(prev) + pc; piovs[1].iov_len = n - pc;
+    format_data([sp](const void* p, size_t len) {
+      const uint8_t* b = reinterpret_cast<const uint8_t*>(p);
+      if (len > 0 && b[0] == 0x1B) {
+        if (sp->ev_n < sp->ev_cap) {
+          sp->ev_pos[sp->ev_n] = sp->pos;
+          sp->ev_len[sp->ev_n] = static_cast<uint8_t>(len > 255 ? 255 : len);
+          for (size_t i = 0; i < 8; i++) sp->ev_bytes[8 * sp->ev_n + i] = i < len ? b[i] : 0;
+        } else sp->overflow = true;
+        sp->ev_n++;
+        return;
+      }
+      for (size_t i = 0; i < len; i++) {
+        if (sp->pos < sp->cap) sp->out[sp->pos] = b[i]; else sp->overflow = true;
+        sp->pos++;
+      }
+    }, iovs, 3, start_address, has_prev ? piovs : nullptr, has_prev ? 2 : 0, flags);
+    *ev_n = sink.ev_n;
     if (sink.overflow) return W_CAPACITY;
     return static_cast<int64_t>(sink.pos);
   }
